@@ -248,8 +248,10 @@ class Report:
             'wall_s': round(wall, 2),
             'violations': len(self.violations),
         }
-        os.makedirs(os.path.join(VERIF, 'evidence'), exist_ok=True)
-        with open(os.path.join(VERIF, 'evidence', f'{prop}.json'), 'w') as f:
+        # seeded-change runs (tools/try_mutant.sh, tools/run_seeded.sh) write elsewhere so that evidence/ always describes /repo itself
+        evdir = os.environ.get('VERIF_EVIDENCE_DIR') or os.path.join(VERIF, 'evidence')
+        os.makedirs(evdir, exist_ok=True)
+        with open(os.path.join(evdir, f'{prop}.json'), 'w') as f:
             json.dump(ev, f, indent=1, default=str)
         print(f'{prop} [{self.tier}] paths={self.paths} assertions={self.asserts} solver_queries={self.solver_calls} items={self.items} '
               f'validated={self.validated} replays={self.replays} findings={len(self.findings)} '
